@@ -25,6 +25,11 @@ def gen_design(r, ncells=None, nlibs=None):
             # the original name differs from the (usually sibling's) previous identifier only in letter case: legal, since
             # identifiers are case-insensitive but names are not - the writer had to rename one of  ack / Ack
             return (i, prev.capitalize() if prev.capitalize() != prev else prev.upper())
+        if r.random() < 0.03:
+            # identifiers exactly at the length limit (255 characters, 256 with the '&' escape)
+            i = r.choice([i + "x" * (255 - len(i)), "&" + i + "y" * (255 - len(i))])
+            last[prefix] = i
+            return (i, None)
         if r.random() < 0.07:
             # names that start with a digit or an underscore: the identifier carries the '&' escape (letters of either case)
             o = r.choice(["_%s", "9%s", "_9%s", "0_%s"]) % i.capitalize()
